@@ -4,6 +4,7 @@ use crate::parser::mnemonic::Mnemonic;
 use crate::parser::source::ParsingSource;
 use crate::parser::{Identifier, IdentifierPath};
 use codespan_reporting::diagnostic::Diagnostic;
+use indexmap::map::IndexMap;
 use itertools::Itertools;
 use path_dedot::ParseDot;
 use std::cell::RefCell;
@@ -63,7 +64,7 @@ impl ParseTree {
 pub struct ParserInstance {
     shared_state: Arc<Mutex<State>>,
     pub current_file: Arc<File>,
-    pub to_import: Arc<RefCell<HashMap<PathBuf, Span>>>,
+    pub to_import: Arc<RefCell<IndexMap<PathBuf, Span>>>,
 }
 
 impl ParserInstance {
@@ -71,7 +72,7 @@ impl ParserInstance {
         Self {
             shared_state: state,
             current_file,
-            to_import: Arc::new(RefCell::new(HashMap::new())),
+            to_import: Arc::new(RefCell::new(IndexMap::new())),
         }
     }
 
